@@ -192,5 +192,14 @@ UNIT = Unit(
            obligation="every parameter gets a binder of its own (a fresh id, also when two parameters share a name) and is entered into the environment in order",
            contract="ensures params_bound(params@, r.0.0@, r.1@),",
            loop_fn=lambda k, header, kw, body: PARAM_LOOPS(header, body)),
+        Fn(file=N, name="resolve_pat", container=NR, as_method_of=NR, rename="resolve_ident_pat", ret="r",
+           cut_from="ast::Pat::PVar { name, astptr } => {", cut_inside=True, cut_before="@block-end", cut_tail="",
+           sig="pub fn resolve_ident_pat(&mut self, name: &ast::AstIdent, astptr: &ast::MySyntaxNodePtr, env: &mut ResolveLocalEnv, ctx: &ResolutionContext, hir_table: &mut HirTable) -> hir::PatId",
+           rewrites=[("name.clone()", "ident_clone(name)", "*"), ("self.fresh_name(&name.0, hir_table)", "self.fresh_name(string_as_str(&name.0), hir_table)", "*"),
+                     ("args: Vec::new(),", "args: Vec::<hir::PatId>::new(),", "*")],
+           obligation="an identifier pattern that names a constructor of the package (looked up package-wide, not per file) is a nullary constructor "
+                      "pattern and binds nothing; any other identifier pattern is a new binder, added at the end of the environment",
+           contract="ensures ident_pat_ok(*name, ctx, old(env).0@, final(env).0@, final(hir_table).pat_of(r)),",
+           ghost=[("env.add(name, newname);", "line-after", "proof { assert(env.0@.subrange(0, old(env).0@.len() as int) =~= old(env).0@); }")]),
     ],
 )
